@@ -146,7 +146,18 @@ func marshalUnknownValue(rng cty.ValueRange, path cty.Path, enc *msgpack.Encoder
 	return nil
 }
 
-func unmarshalUnknownValue(dec *msgpack.Decoder, ty cty.Type, path cty.Path) (cty.Value, error) {
+func unmarshalUnknownValue(dec *msgpack.Decoder, ty cty.Type, path cty.Path) (ret cty.Value, err error) {
+	defer func() {
+		// The refinement builder reports refinements that are inconsistent
+		// with each other or with the type by panicking. That is appropriate
+		// for a mistake in a calling program, but here the refinements come
+		// from the input, so we report them as a decoding error instead.
+		if r := recover(); r != nil {
+			ret = cty.DynamicVal
+			err = path.NewErrorf("invalid refinements for unknown value: %v", r)
+		}
+	}()
+
 	// The next item in the stream should be a msgpack extension value,
 	// which might be zero-length for a totally unknown value, or it might
 	// contain a mapping describing some type-specific refinements.
